@@ -30,6 +30,15 @@ ATRULE = ["media", "supports", "import", "use", "forward", "include", "mixin", "
 COMMENT = ["/", "]", "*", "#", "[", " ", "\n", "{", "}"]
 MUT_ATOMS = list("{}()[];:,\"'#$@&*/\\\n") + [" ", "é", "-é", "#{", "日", "/*", "//", "\t", "\r\n", "\x00", "😀", "!", "%"]
 
+# bounded loops whose counters sit where floating-point arithmetic stops being exact (2^53, 2^62, near i64::MAX): a handful of
+# iterations each, so every one of them must terminate at once
+LOOPS = ["@for $i from 9007199254740992 through 9007199254740994 { a { b: $i } }\n", "@for $i from 9007199254740994 through 9007199254740990 { a { b: $i } }\n",
+         "@for $i from -9007199254740993 to -9007199254740990 { a { b: $i } }\n", "@for $i from 4611686018427387904 to 4611686018427387907 { a { b: c } }\n",
+         "@for $i from 18014398509481984 to 18014398509481990 { a { b: $i } }\n", "@for $i from 9007199254740990 through 9007199254740993 { a { b: $i } }\n",
+         "@for $i from 1e15 to 1e15 + 3 { a { b: $i } }\n", "@for $i from 9223372036854775805 through 9223372036854775807 { a { b: c } }\n",
+         "$j: 9007199254740992; @while $j < 9007199254740996 { a { b: $j } $j: $j + 2; }\n", "@for $i from 1.0 through 3.0 { a { b: $i } }\n",
+         "@for $i from 1px through 3px { a { b: $i } }\n", "@for $i from 3 through 1 { @for $k from $i to 3 { a { b: $k } } }\n"]
+
 # name -> (alphabet, maxlen quick, maxlen thorough, prefix, suffix, syntaxes)
 CONTEXTS = {
     "soup": (CORE, 4, 5, "", "", ["scss", "sass", "css"]),
@@ -37,13 +46,14 @@ CONTEXTS = {
     "value-small": (VALUE_SMALL, 4, 6, "a{b:", "}", ["scss"]),
     "value-sass": (VALUE, 2, 3, "$x: 1\na\n  b: ", "\n", ["sass"]),
     "calc-args": (["1", "2px", "3em", ",", " ", "+", "(", ")"], 5, 6, "a{b:clamp(", ")}", ["scss"]),
-    "calc-args2": (["1", "2px", "3em", "1%", ",", " ", "+", "-", "*", "/", "(", ")", "min(", "calc(", "$x"], 3, 5, "$x: 1;\na{b:max(", ")}", ["scss"]),
+    "calc-args2": (["1", "2px", "3em", "1%", ",", " ", "+", "-", "*", "/", "(", ")", "min(", "calc(", "$x"], 3, 4, "$x: 1;\na{b:max(", ")}", ["scss"]),
     "selector-interp": ([".", "#{$s}", " ", "a", ":", ">", ",", "&", "(", "["], 4, 5, "$s:\"日本\";\n", "{a:b}", ["scss"]),
     "media-interp": (["#{$s}", "(", ")", "and", " ", ":", "screen", ",", "not"], 4, 5, "$s:\"日本\";\n@media ", "{a{b:c}}", ["scss"]),
     "selector": (SELECTOR, 2, 3, "$s:\"日本語日本語\";\n", "{a:b}", ["scss"]),
     "selector-fn": (SELECTOR, 2, 3, "$s:\"日本語日本語\";\na{b:selector-parse(\"", "\")}", ["scss"]),
     "atrule": (ATRULE, 3, 4, "@", "", ["scss", "sass"]),
-    "comment-soup": (COMMENT, 5, 7, "", "", ["sass", "scss"]),
+    "comment-soup": (COMMENT, 5, 6, "", "", ["sass", "scss"]),
+    "loops": (LOOPS, 2, 2, "", "", ["scss"]),
 }
 BYTES = [
     {"src_hex": "ff"}, {"src_hex": "61c3"}, {"src_hex": "c328"}, {"src_hex": "efbbbf61"}, {"src_hex": "f0288cbc"},
@@ -113,7 +123,7 @@ def run(ctx):
                 batchof.append(b)
     # mutations of realistic inputs
     co = [c["input"] for c in C.corpus() if 5 < len(c["input"]) < 300]
-    seeds = rnd.sample(co, 60 if not thorough else 400)
+    seeds = rnd.sample(co, 60 if not thorough else 200)
     maxpos = 24 if not thorough else 60
     r = C.tlc("MC_Input", cfg_text=CFG % (len(MUT_ATOMS), 1, "mutations", maxpos), workers=6, timeout=3000, metaname="input-mut")
     C.tlc_must_pass(r, "MC_Input/mutations")
@@ -150,7 +160,20 @@ def run(ctx):
             batchof.append(b)
     for i, j in enumerate(jobs):
         j["id"] = i
-    res = C.run_cases(jobs, PID, watchdog=4.0)
+    # executed in slices; only what the judgement needs is kept of each result (the thorough tier runs millions of compilations)
+    def slim(x):
+        y = {"outcome": x.get("outcome")}
+        if x.get("err"):
+            y["err"] = {"kind": (x.get("err") or {}).get("kind")}
+        if "rendered" in x:
+            y["rendered"] = True
+        for k in ("panic", "kind_panic", "render_panic", "retried"):
+            if x.get(k):
+                y[k] = x[k]
+        return y
+    res = []
+    for start in range(0, len(jobs), 150000):
+        res.extend(slim(x) for x in C.run_cases(jobs[start:start + 150000], PID, watchdog=4.0))
     stats = [{"id": k, "ctx": batches[k], "n": 0, "css": 0, "parse": 0, "io": 0, "utf8": 0, "other": []} for k in range(len(batches))]
     seen = set()
     for j, x, k in zip(jobs, res, batchof):
